@@ -55,8 +55,12 @@ func (w *vfC02World) genBlipPlan(rt *rapid.T) *vfC02BlipPlan {
 	p.ActiveOnly = rapid.IntRange(0, 3).Draw(rt, "bactive") == 0
 	if rapid.IntRange(0, 4).Draw(rt, "bdocids") == 0 {
 		n := rapid.IntRange(1, 3).Draw(rt, "bn")
+		seen := map[string]bool{}
 		for i := 0; i < n; i++ {
-			p.DocIDs = append(p.DocIDs, w.drawDoc(rt).ID)
+			if id := w.drawDoc(rt).ID; !seen[id] {
+				seen[id] = true
+				p.DocIDs = append(p.DocIDs, id)
+			}
 		}
 	}
 	p.Replacement = rapid.IntRange(0, 3).Draw(rt, "breplacement") == 0
@@ -95,6 +99,57 @@ type vfC02BlipSession struct {
 	attAsked  int
 	attServed int
 	trouble   string
+	seenDoc   map[string]bool // documents whose first rev/norev went to the repository client's own handler
+	repeats   int
+}
+
+// firstFor reports whether this is the first rev/norev message of the pull for the document. Only the
+// first one is handed to the BlipTesterClient's handler: that handler asserts (and aborts the
+// goroutine, failing the outer test) when the gateway sends a version the client already holds, which a
+// changes feed legitimately does when a document is listed at two sequences (replacement revisions,
+// branched documents). Later messages are recorded and answered by the harness itself.
+func (s *vfC02BlipSession) firstFor(docID string) bool {
+	s.mu.Lock()
+	defer s.mu.Unlock()
+	if s.seenDoc[docID] {
+		s.repeats++
+		return false
+	}
+	s.seenDoc[docID] = true
+	return true
+}
+
+// ownRev handles a repeated rev message: fetch the attachments it lists (recorded), then acknowledge.
+func (s *vfC02BlipSession) ownRev(msg *blip.Message) {
+	body, _ := msg.Body()
+	var doc struct {
+		Atts map[string]struct {
+			Digest string `json:"digest"`
+		} `json:"_attachments"`
+	}
+	_ = json.Unmarshal(body, &doc)
+	for _, a := range doc.Atts {
+		if a.Digest == "" {
+			continue
+		}
+		rq := blip.NewRequest()
+		rq.SetProfile(db.MessageGetAttachment)
+		rq.Properties[db.GetAttachmentDigest] = a.Digest
+		if s.plan.Proto != "v2" {
+			rq.Properties[db.GetAttachmentID] = msg.Properties[db.RevMessageID]
+		}
+		s.btcc.addCollectionProperty(rq)
+		if !s.client.pullReplication.bt.sender.Send(rq) {
+			break
+		}
+		b := vfC02MsgBytes(rq.Response())
+		s.mu.Lock()
+		s.chunks = append(s.chunks, b)
+		s.mu.Unlock()
+	}
+	if !msg.NoReply() {
+		msg.Response().SetBody([]byte(`[]`))
+	}
 }
 
 func vfC02MsgBytes(msg *blip.Message) []byte {
@@ -147,7 +202,7 @@ func (w *vfC02World) runBlip(u *vfC02User, plan *vfC02BlipPlan) (s *vfC02BlipSes
 			err = vfC02Infra{fmt.Sprintf("BLIP client panic: %v", r)}
 		}
 	}()
-	s = &vfC02BlipSession{w: w, u: u, plan: plan, attChunks: map[string][][]byte{}}
+	s = &vfC02BlipSession{w: w, u: u, plan: plan, attChunks: map[string][][]byte{}, seenDoc: map[string]bool{}}
 	runner := NewBlipTesterClientRunner(w.t)
 	proto := map[string]db.CBMobileSubprotocolVersion{"v2": db.CBMobileReplicationV2, "v3": db.CBMobileReplicationV3, "v4": db.CBMobileReplicationV4}[plan.Proto]
 	runner.SetSubprotocols([]string{proto.SubprotocolString()})
@@ -214,7 +269,11 @@ func (w *vfC02World) runBlip(u *vfC02User, plan *vfC02BlipPlan) (s *vfC02BlipSes
 				}
 			}
 		}
-		origRev(msg)
+		if s.firstFor(msg.Properties[db.RevMessageID]) {
+			origRev(msg)
+		} else {
+			s.ownRev(msg)
+		}
 		b := vfC02MsgBytes(msg)
 		s.mu.Lock()
 		s.chunks = append(s.chunks, b)
@@ -223,7 +282,9 @@ func (w *vfC02World) runBlip(u *vfC02User, plan *vfC02BlipPlan) (s *vfC02BlipSes
 		s.mu.Unlock()
 	}
 	bc.HandlerForProfile[db.MessageNoRev] = func(msg *blip.Message) {
-		origNoRev(msg)
+		if s.firstFor(msg.Properties[db.NorevMessageId]) {
+			origNoRev(msg)
+		}
 		b := vfC02MsgBytes(msg)
 		s.mu.Lock()
 		s.chunks = append(s.chunks, b)
@@ -263,7 +324,11 @@ func (w *vfC02World) runBlip(u *vfC02User, plan *vfC02BlipPlan) (s *vfC02BlipSes
 	}
 	s.btcc.attachmentsLock.RUnlock()
 	for _, m := range s.client.pullReplication.GetMessages() {
-		s.chunks = append(s.chunks, vfC02MsgBytes(m))
+		// the store also holds the client's own requests (subChanges names the docIDs filter): only
+		// what the gateway answered is of interest here; its requests were recorded by the handlers above
+		if m.Type() != blip.RequestType {
+			s.chunks = append(s.chunks, vfC02MsgBytes(m))
+		}
 	}
 	if s.trouble != "" {
 		return s, vfC02Infra{s.trouble}
@@ -283,6 +348,33 @@ func (w *vfC02World) judgeBlip(s *vfC02BlipSession) string {
 			if v := w.judge(s.u, map[*vfC02Doc]bool{d: true}, cs); v != "" {
 				return "explicit getAttachment: " + v
 			}
+		}
+	}
+	return ""
+}
+
+// missingCurrent: an unfiltered pull from zero delivers the current revision of every document that
+// is in one of the user's channels (the converse clause on the replication surface).
+func (w *vfC02World) missingCurrent(s *vfC02BlipSession) string {
+	if s.plan.Channels != "" || s.plan.ActiveOnly || len(s.plan.DocIDs) > 0 {
+		return ""
+	}
+	s.mu.Lock()
+	defer s.mu.Unlock()
+	for _, d := range w.docs {
+		win := d.Winner
+		if win == nil || win.Deleted || !s.u.inChans(win.Chans) {
+			continue
+		}
+		found := false
+		for _, c := range s.chunks {
+			if strings.Contains(string(c), win.Marker) {
+				found = true
+				break
+			}
+		}
+		if !found {
+			return fmt.Sprintf("current revision %s of %s is in channels %v, %s has %s, but an unfiltered pull from 0 did not deliver its body", win.ID, d.ID, win.Chans, s.u.Name, s.u.effString())
 		}
 	}
 	return ""
